@@ -17,4 +17,7 @@ ProfilesT == {PA, PB, PC, PD}
 \* the twin scenario: two ordinary transactions
 P2 == <<A("none", 0), A("height", 3)>>
 Profiles2 == {P2}
+\* the TxHeight window edges: a window transaction and an ordinary one as filler
+PH == <<A("txh", 2), A("none", 0)>>
+ProfilesH == {PH}
 =============================================================================
